@@ -87,13 +87,16 @@ class StageP:
         return sorted(f for f in glob.glob(os.path.join(d, self.prop + '*.lean'))
                       if re.fullmatch(re.escape(self.prop) + r'[a-z]?\.lean', os.path.basename(f)))
 
+    def theorem_names_of(self, path):
+        src = strip_lean_comments(open(path).read())
+        ns = re.findall(r'^namespace\s+(\S+)', src, re.M)
+        prefix = ns[0] + '.' if ns else ''
+        return [prefix + m for m in re.findall(r'^theorem\s+([A-Za-z0-9_\.\']+)', src, re.M)]
+
     def theorem_names(self):
         names = []
         for path in self.property_files():
-            src = strip_lean_comments(open(path).read())
-            ns = re.findall(r'^namespace\s+(\S+)', src, re.M)
-            prefix = ns[0] + '.' if ns else ''
-            names += [prefix + m for m in re.findall(r'^theorem\s+([A-Za-z0-9_\.\']+)', src, re.M)]
+            names += self.theorem_names_of(path)
         return names
 
     def closure(self, roots):
@@ -128,17 +131,27 @@ class StageP:
         reach = self.closure(prop_modules + ['Main'])
         from . import trcheck
         self.uses_translated = 'Asn1Model.Translated' in reach or self.prop in trcheck.TR_PREFIXES
-        targets = ['driver'] + prop_modules
+        targets = ['driver']
         if self.uses_translated:
             targets.append('trdriver')
             if translate_error:
                 self.errors.append(translate_error)
         rc, out = run_cmd(['lake', 'build'] + targets, cwd=LEAN)
-        self.log += out[-4000:]
+        self.log += out[-3000:]
         if rc != 0:
-            self.errors.append('lake build failed')
-            failing = re.findall(r'error: (\S+\.lean):(\d+)', out)
-            self.errors += ['%s:%s' % f for f in failing[:10]]
+            self.errors.append('lake build failed: ' + ' '.join(targets))
+            self.errors += ['%s:%s' % f for f in re.findall(r'error: (\S+\.lean):(\d+)', out)[:10]]
+        # each property module is built and audited on its own, so that a broken module does not hide the others
+        built = []
+        for pm in prop_modules:
+            rcm, outm = run_cmd(['lake', 'build', pm], cwd=LEAN)
+            if rcm == 0:
+                built.append(pm)
+            else:
+                rc = rc or rcm
+                self.log += outm[-3000:]
+                self.errors.append('lake build failed: ' + pm)
+                self.errors += ['%s:%s' % f for f in re.findall(r'error: (\S+\.lean):(\d+)', outm)[:10]]
         # forbidden constructs, in every module the property theorems and the driver depend on
         for m, path in sorted(reach.items()):
             body = strip_lean_comments(open(path).read())
@@ -150,27 +163,27 @@ class StageP:
         except Exception as e:
             self.errors.append('cannot list theorems: %r' % (e,))
             self.obligations = []
-        if rc == 0 and self.obligations:
+        if built and self.obligations:
             audit = os.path.join(LEAN, '.lake', 'audit_%s.lean' % self.prop)
             with open(audit, 'w') as f:
-                for pf in self.property_files():
-                    f.write('import Asn1Proofs.Properties.%s\n' % os.path.basename(pf)[:-5])
-                for t in self.obligations:
-                    f.write('#print axioms %s\n' % t)
+                for pm in built:
+                    f.write('import %s\n' % pm)
+                for pm in built:
+                    for t in self.theorem_names_of(os.path.join(LEAN, *pm.split('.')) + '.lean'):
+                        f.write('#print axioms %s\n' % t)
             rc2, out2 = run_cmd(['lake', 'env', 'lean', audit], cwd=LEAN)
-            cur = None
             text = out2.replace('\n  ', ' ')
             for m in re.finditer(r"'(\S+)' (depends on axioms: \[([^\]]*)\]|does not depend on any axioms)", text):
                 name = m.group(1)
                 axs = [a.strip() for a in (m.group(3) or '').split(',') if a.strip()]
                 self.axioms[name] = axs
-            for t in self.obligations:
-                if t in self.axioms and set(self.axioms[t]) <= ALLOWED_AXIOMS:
-                    self.discharged.append(t)
-                else:
-                    self.errors.append('theorem %s not discharged (axioms: %s)' % (t, self.axioms.get(t)))
             if rc2 != 0:
                 self.errors.append('audit failed: ' + out2[-500:])
+        for t in self.obligations:
+            if t in self.axioms and set(self.axioms[t]) <= ALLOWED_AXIOMS:
+                self.discharged.append(t)
+            else:
+                self.errors.append('theorem %s not discharged (axioms: %s)' % (t, self.axioms.get(t)))
         if self.tier == 'thorough' and rc == 0 and os.environ.get('VERIF_SKIP_LEANCHECKER') != '1':
             rc3, out3 = run_cmd(['lake', 'env', 'leanchecker'] + ['Asn1Proofs.Properties.%s' % os.path.basename(pf)[:-5] for pf in self.property_files()],
                                 cwd=LEAN, timeout=3000)
